@@ -34,14 +34,22 @@
 #define OPS2 OPS
 #endif
 #define OPSET(i) ((i) == 0 ? (OPS0) : (i) == 1 ? (OPS1) : (OPS2))
+/* per-position operation sets of process 2 (default POPS everywhere) */
+#ifndef POPS0
+#define POPS0 POPS
+#endif
+#ifndef POPS1
+#define POPS1 POPS
+#endif
+#define POPSET(j) ((j) == 0 ? (POPS0) : (POPS1))
 /* a failed check ends its path: every reported failure is a first deviation, not a consequence of an earlier one */
 #define CHECK(c, msg) do { VF_ASSERT(c, msg); VF_ASSUME(c); } while (0)
-static struct S_class_2eFIX8_3a_3aFilePersister fp1, fp2;
+static struct S_class_2eFIX8_3a_3aFilePersister fp1, fp2, fp3;
 /* reference */
 static uint8_t r_has[MAXSEQ + 1], r_len[MAXSEQ + 1], r_dat[MAXSEQ + 1][2]; static int r_hasc; static uint32_t r_ca, r_cb;
 uint8_t cx_op[K]; uint32_t cx_a[K], cx_b[K]; uint8_t cx_d0[K], cx_d1[K], cx_len[K];
 uint32_t cx_crash_at; uint8_t cx_done;                 /* crash after that many completed write/lseek calls (0 = none); operations completed */
-uint8_t cx_pop[KP]; uint32_t cx_pa[KP], cx_pb[KP]; uint8_t cx_pd0[KP], cx_pd1[KP], cx_plen[KP]; uint32_t cx_probe[KP + 1];
+uint8_t cx_pop[KP]; uint32_t cx_pa[KP], cx_pb[KP]; uint8_t cx_pd0[KP], cx_pd1[KP], cx_plen[KP]; uint32_t cx_probe[KP + 2];
 static void probe(struct S_class_2eFIX8_3a_3aFilePersister *p, int j)
 {
   uint32_t s = nondet_u32(); VF_ASSUME(s >= 1 && s <= MAXSEQ); cx_probe[j] = s;
@@ -126,7 +134,7 @@ int main(void)
 #endif
   for (int j = 0; j < KP; j++) {
     uint8_t op = nondet_u8(); uint32_t a = nondet_u32(), b = nondet_u32(); uint8_t d0 = nondet_u8(), d1 = nondet_u8(), len = nondet_u8();
-    VF_ASSUME(op < 2 && ((POPS >> op) & 1) && a <= MAXSEQ && b <= 1000 && len >= 1 && len <= 2);
+    VF_ASSUME(op < 2 && ((POPSET(j) >> op) & 1) && a <= MAXSEQ && b <= 1000 && len >= 1 && len <= 2);
 #ifdef LENC
     len = LENC;
 #endif
@@ -134,17 +142,26 @@ int main(void)
 #ifdef KF_FP_SLOT0
     if (j == 0 && cx_done == 0) VF_ASSUME(op == 1);          /* nothing completed before the crash: still a fresh store */
 #endif
-    if ((POPS & 1) && op == 0) {
+    if ((POPSET(j) & 1) && op == 0) {
       uint8_t d[2] = { d0, d1 };
       uint8_t ok = vf_fp_put(&fp2, a, d, len) & 1;
       CHECK(ok == (a != 0 && !r_has[a]), "C27: after reopening, storing to an unoccupied number is accepted (occupied or 0 refused)");
       if (a != 0 && !r_has[a]) { r_has[a] = 1; r_len[a] = len; r_dat[a][0] = d0; r_dat[a][1] = d1; }
-    } else if ((POPS & 2) && op == 1) {
+    } else if ((POPSET(j) & 2) && op == 1) {
       uint8_t ok = vf_fp_putc(&fp2, a, b) & 1; CHECK(ok, "C27: control put succeeds after reopening"); r_hasc = 1; r_ca = a; r_cb = b;
     }
     CHECK(!__vf_exc_pending, "C27: no exception"); __vf_exc_pending = 0;
     probe(&fp2, j + 1);
   }
+#ifdef STAGE3
+  /* ---------------- process 2 ends (no crash); process 3: what process 2 answered from its in-memory index must also be what its
+     files say - a third, fresh FilePersister reopens them and the same oracle is evaluated against the reference as it stands now */
+  vf_fs_new_process();
+  vf_fp_ctor(&fp3, 0);
+  iok = vf_fp_init(&fp3, (uint8_t*)".", 1, (uint8_t*)"s", 1, 0) & 1;
+  CHECK(iok && !__vf_exc_pending, "C27: reopening a second time succeeds"); __vf_exc_pending = 0;
+  probe(&fp3, KP + 1);
+#endif
   VF_REACH();
   return 0;
 }
